@@ -1907,3 +1907,7 @@ mod tests {
         }
     }
 }
+
+#[cfg(kani)]
+#[path = "/verif/harness/foyer-memory/raw.rs"]
+mod verif_kani;
